@@ -22,7 +22,9 @@ EXPLANATION = (
     "iff it has a predicate) on all paths, targets being blocks created by the same context (derived from the emission "
     "templates). R14.4 expression handlers never start or end a basic block, so an expression's operands are defined earlier in "
     "the same block. R14.5 the rewriting protocol keeps this well-formed (= R02.1-R02.3, R02.6). R14.6 a call names a function "
-    "through the helper that names definitions and passes one operand per call argument."
+    "through the helper that names definitions and passes one operand per call argument. R14.3 also: a function's block list "
+    "is created empty, grows by append only and is otherwise only handed through the generic traversal; R14.5 includes the "
+    "value table and constant pool that only grow (= R02.11)."
 )
 NOT_DECIDED = "well-formedness of one particular emitted module (that is a property of a run; the rule set is about all runs)"
 ASSUMPTIONS = ["the VM executes blocks in creation order, falling through to the next block when a block does not end in a branch"]
